@@ -2,6 +2,7 @@ import TinodeVerif.Driver.C05
 import TinodeVerif.Driver.C04
 import TinodeVerif.Driver.C20
 import TinodeVerif.Driver.C17
+import TinodeVerif.Driver.C19
 /-!
 Line-protocol driver. Usage:
   driver model    < ops.txt        > model.out     one output line per op line
@@ -20,6 +21,7 @@ def modelLine (line : String) : String :=
       else if w.startsWith "uid." then Driver.C20.model ws
       else if w.startsWith "ring." then Driver.C17.model ws
       else if w.startsWith "elect." then Driver.C17.modelE ws
+      else if w.startsWith "q." || w.startsWith "tags." then Driver.C19.model ws
       else none
     match r with
     | some s => s
@@ -38,6 +40,7 @@ def verdictLine (line : String) : String :=
         else if w.startsWith "rng." then Driver.C04.verdict ws os
         else if w.startsWith "uid." then Driver.C20.verdict ws os
         else if w.startsWith "ring." then Driver.C17.verdict ws os
+        else if w.startsWith "q." || w.startsWith "tags." then Driver.C19.verdict ws os
         else some true
       match r with
       | some true => "ok"
